@@ -155,6 +155,9 @@ func Near(a, b, abs, rel float64) bool {
 
 func AssertNear(a, b, abs, rel float64, label string) { Assert(Near(a, b, abs, rel), label) }
 
+// HuntNear: like AssertNear, but under the engine only a counterexample counts (bug hunting).
+func HuntNear(a, b, abs, rel float64, label string) { Assert(Near(a, b, abs, rel), label) }
+
 func AssertLe(a, b, abs, rel float64, label string) {
 	ok := !math.IsNaN(a) && !math.IsNaN(b) && a <= b+abs+rel*math.Max(math.Abs(a), math.Abs(b))
 	Assert(ok, label)
